@@ -312,6 +312,18 @@ def plans(F, R):
             cells = tables.setdefault((fsm, ev), {})
             for tr in seq:
                 c = norm_transition(tr)
+                # a forwarding row installed for this table must carry the table's own event type (so that the submachine
+                # receives the event itself, not a base-class slice or a Kleene wrapper of it)
+                for x in ([tr] if c[0] != 'chain' else (type_list(parse_type(parse_type(tr)[2].strip()[2:])[1][0]) or [])):
+                    h0, a0, r0 = parse_type(x)
+                    r0 = r0.strip()
+                    if r0.startswith('::'):
+                        h2, a2, _ = parse_type(r0[2:])
+                        if h2.split('::')[-1] == 'frow' and a2 and len(a2) >= 2:
+                            okf = strip_cvref(a2[1]) == strip_cvref(ev)
+                            R.ob('C18.frow-event', okf, {'machine': Facts.short(fsm, 50), 'event': Facts.short(ev, 30), 'forwarded_as': Facts.short(a2[1], 30)})
+                            if not okf:
+                                R.find('C18.frow-event', f, 'frow-event', 'the forwarding row installed for event %s forwards it as %s: the submachine receives a slice / wrapper and its exact and base-class rows stop matching' % (Facts.short(ev, 40), Facts.short(a2[1], 40)), instance='%s / %s' % (Facts.short(fsm, 80), Facts.short(ev, 40)))
                 rec = F.rec_by_type(tr)
                 st = F.strs[rec['tds']['current_state_type']] if rec and 'current_state_type' in rec['tds'] else None
                 if st is None: continue
@@ -393,33 +405,50 @@ def rowtags(F, R):
 
 # ------------------------------------------------------------------ sibling agreement back <-> back11 (C13.siblings)
 
-def path_signature(f, p):
-    """abstract behaviour of one path: resolved library callees (plain names), enumerators and literal arguments, member writes"""
-    toks = []
-    for i in f.path_nodes(p):
+def effect_tokens(F, E, f, depth=0, seen=None):
+    """order-free abstract behaviour of a function, closed over its library helpers (so that extracting or inlining a helper does not
+    change it): enumerators used, processing-flag writes with their value, queue operations, active-state writes, behaviour classes
+    reached, event-processing entry points called, enumerators returned"""
+    from rules_rtc import queue_ops, FLAG_MEMBER as FM
+    from effects import leaf_class, PROCESS_ENTRY, ACTIVE_MEMBERS as AM
+    seen = seen if seen is not None else set()
+    if f.k in seen or depth > 4: return set()
+    seen.add(f.k)
+    toks = set()
+    qn = {}
+    for i, q, op in queue_ops(f): qn[i] = (q, op)
+    for i in f.linear_nodes():
         n = f.nodes[i]
         if not n: continue
         k = n['k']
-        if k == 'call' and n.get('org') == 1 and not n.get('op'):
-            toks.append('call:' + n['n'])
-        elif k == 'call' and n.get('op') and n.get('org') == 1 and n['op'] not in ('()',):
-            toks.append('op' + n['op'])
-        elif k == 'ref' and n.get('dk') == 'enum':
-            toks.append('enum:' + n['n'])
+        if k == 'ref' and n.get('dk') == 'enum': toks.add('enum:' + n['n'])
         elif k == 'asg':
             m = f.base_member(n['lhs'])
-            if m: toks.append('write:' + m + n['op'])
-        elif k == 'ret':
-            toks.append('ret')
-        elif k == 'call' and 'fk' not in n:
-            toks.append('icall')
-    return tuple(toks)
+            if m == FM:
+                r = f.nodes[n['rhs']]
+                toks.add('flag=%s' % (r.get('v') if r and r['k'] == 'lit' else '?'))
+            elif m in AM: toks.add('write-active')
+        elif k == 'ret' and n['e']:
+            r = f.nodes[n['e']]
+            if r and r['k'] == 'ref' and r.get('dk') == 'enum': toks.add('ret:' + r['n'])
+        elif k == 'call':
+            if i in qn: toks.add('queue:%s.%s' % qn[i])
+            lc = leaf_class(F, n)
+            if lc and lc != 'PROCESS': toks.add('behaviour:' + lc)
+            elif lc == 'PROCESS' or n.get('n') in PROCESS_ENTRY: toks.add('process:' + n['n'])
+            elif 'fk' in n and n.get('org') == 1:
+                g = F.bykey.get(n['fk'])
+                if g is not None and g.blocks and backend_of(g) == backend_of(f):
+                    toks |= effect_tokens(F, E, g, depth + 1, seen)
+            elif 'fk' not in n: toks.add('indirect-call')
+    return toks
 
 @rule('siblings')
 def siblings(F, R):
     """exports, per function pattern of back / back11 state_machine.hpp (dispatch_table.hpp), the set of abstract path signatures over all
     instantiations in this TU; the aggregate compares the two back-ends"""
-    from rules_core import backend_of
+    from effects import Effects
+    E = Effects(F)
     out = {}
     for f in F.funcs:
         be = backend_of(f)
@@ -427,13 +456,7 @@ def siblings(F, R):
         if not (f.file.endswith('/state_machine.hpp') or f.file.endswith('/dispatch_table.hpp')): continue
         key = f.q.replace('boost::msm::back11::', 'B::').replace('boost::msm::back::', 'B::')
         nparams = len(f.d['params'])
-        sigs = set()
-        try:
-            for p in f.paths(max_paths=200, edge_bound=1):
-                if f.aborts(p): continue
-                sigs.add(path_signature(f, p))
-        except RecursionError:
-            continue
+        sigs = {tuple(sorted(effect_tokens(F, E, f)))}
         # compare like with like: the same front-end machine (back-end name normalised) and the same function template arguments
         def nrm(x):
             x = str(x).replace('boost::msm::back11::', 'boost::msm::back::')
@@ -459,11 +482,11 @@ def siblings_cmp(exports, M, tier):
                 if 'back' not in d or 'back11' not in d: continue
                 n += 1; pats.add(k)
                 def norm(sig): return tuple(t for t in sig if t not in SIBLING_IGNORE_TOKENS)
-                na, nb = {norm(tuple(x)) for x in d['back']}, {norm(tuple(x)) for x in d['back11']}
+                na, nb = set().union(*[set(norm(tuple(x))) for x in d['back']]), set().union(*[set(norm(tuple(x))) for x in d['back11']])
                 ok = na == nb or k in SIBLING_ACCEPTED
-                M.ob('C13.siblings', ok, {'function': k, 'instance': Facts.short(inst, 120), 'paths': len(na)} if n < 4 else None)
+                M.ob('C13.siblings', ok, {'function': k, 'instance': Facts.short(inst, 120), 'effect_tokens': sorted(na)[:12]} if n < 4 else None)
                 if not ok:
-                    M.find('C13.siblings', ('boost/msm/back11/state_machine.hpp', k.split('/')[0]), 'diverge', 'back and back11 instantiations of %s for the same machine and arguments differ in their abstract behaviour: only in back %s ; only in back11 %s' % (k, sorted(na - nb)[:1], sorted(nb - na)[:1]), where='boost/msm/back*/' + ('dispatch_table.hpp' if 'dispatch_table' in k else 'state_machine.hpp'), instance=Facts.short(inst, 200) + ' (' + tu + ')')
+                    M.find('C13.siblings', ('boost/msm/back11/state_machine.hpp', k.split('/')[0]), 'diverge', 'back and back11 instantiations of %s for the same machine and arguments differ in their abstract behaviour: only in back %s ; only in back11 %s' % (k, sorted(na - nb)[:6], sorted(nb - na)[:6]), where='boost/msm/back*/' + ('dispatch_table.hpp' if 'dispatch_table' in k else 'state_machine.hpp'), instance=Facts.short(inst, 200) + ' (' + tu + ')')
     M.anchor('sibling-patterns', len(pats))
     M.anchor('sibling-pairs', n)
 
